@@ -121,6 +121,14 @@ CHECKS["C10"] = dict(
          "with integer counts and the real special functions (concrete twin), which validates the count-table stub.",
     note="Partial: numeric values of gammaln/log and pandas counting itself are outside the solver claim (covered only by the concrete twin); BDs local "
          "score and the Gaussian scores are not claimed. Bounds: child with <=2 parents, cards<=3.", ref="5/C10")
+CHECKS["C06"] = dict(
+    text="The weighted estimation path (BaseEstimator.state_counts through pandas groupby/sum/unstack/reindex/fillna, MaximumLikelihoodEstimator, "
+         "BayesianEstimator with K2 / BDeu / Dirichlet priors, BayesianNetwork.fit and fit_update) runs with a SYMBOLIC weight per data row, symbolic "
+         "pseudo-counts, equivalent sample size, previous CPDs and previous sample size; every estimated entry, addressed by declared state NAME, is shown "
+         "equal to the closed form (weighted count / total, uniform for unseen parent configurations, (count+alpha)/(total+sum alpha)) for all weights. "
+         "The unweighted counting path is compared with the same closed form on enumerated concrete frames, including row/column permutations.",
+    note="Partial: EM (likelihood monotonicity), n_jobs>1 and the unweighted pandas counting itself are outside the solver claim. Bounds: <=3 columns, "
+         "cards<=3, design frames with <=1 row per joint configuration, weights strictly increasing along the row index.", ref="5/C06")
 
 NOT_APPLICABLE = {
     "C19": "statistic, dof and p-value are produced inside pandas.groupby / numpy.bincount / scipy.stats.chi2_contingency / chi2.cdf "
